@@ -17,7 +17,9 @@ type BulkCfg struct {
 }
 
 // DefaultBulk is sized so that one history stays in the tens of milliseconds.
-func DefaultBulk() BulkCfg { return BulkCfg{MaxNH: 72, MaxNHG: 40, MaxTop: 130, MaxHops: 16, Churn: 40} }
+func DefaultBulk() BulkCfg {
+	return BulkCfg{MaxNH: 72, MaxNHG: 40, MaxTop: 130, MaxHops: 16, Churn: 40}
+}
 
 // scale draws a count in [lo, max]: a third of the time from the top fifth of the
 // range (limits sit there), otherwise anywhere.
